@@ -34,7 +34,122 @@ func init() {
 		}
 		ex.setBool("hostIsTrimmedUrlHost", ok, fd != nil, "NewUpstream: addrUrlHost := tryTrimIpv6Brackets(addrURL.Host), exactly once")
 		c18BootFacts(ex, fd)
+		c18DohFacts(ex, fd)
 	})
+}
+
+// The DoH / HTTP3 path: the endpoint handed to the HTTP client is the string of
+// the URL the user wrote (only its scheme may have been rewritten by the h3
+// alias), and the DoH upstream sends its requests to that URL. Go's HTTP
+// clients take the TLS server name and the Host / :authority from there.
+func c18DohFacts(ex *factExtractor, newUpstream *ast.FuncDecl) {
+	const noteEP = "NewUpstream: addrURL is assigned once (url.Parse(addr)), it is passed to nobody and only its String method is called; the only writes to its fields are Scheme and, at most, the one bracket-restoring statement of fact c18DohRestoresV6Brackets; the one doh.NewUpstream call gets addrURL.String() as endpoint"
+	const noteBR = "NewUpstream, case \"https\", before the endpoint is rendered: if a, err := netip.ParseAddr(addrURL.Host); err == nil && a.Is6() { addrURL.Host = \"[\" + addrURL.Host + \"]\" } - an IPv6 URL host written without brackets gets them back (fix bb593cc, finding F15)"
+	if newUpstream != nil {
+		const restoreStmt = `addrURL.Host = "[" + addrURL.Host + "]"`
+		ok := c18Assigns(ex, newUpstream.Body, "addrURL") == 1 && contains(stmtStrings(ex, newUpstream.Body), "addrURL, err := url.Parse(addr)")
+		nDoh, hostWrites := 0, 0
+		var dohPos token.Pos
+		ast.Inspect(newUpstream.Body, func(x ast.Node) bool {
+			switch n := x.(type) {
+			case *ast.AssignStmt:
+				for _, l := range n.Lhs {
+					if sel, isSel := l.(*ast.SelectorExpr); isSel && ex.str(sel.X) == "addrURL" && sel.Sel.Name != "Scheme" {
+						if sel.Sel.Name == "Host" && ex.str(n) == restoreStmt {
+							hostWrites++
+						} else {
+							ok = false // addrURL.Host (or Path, ...) = something else
+						}
+					}
+					if st, isStar := l.(*ast.StarExpr); isStar && ex.str(st.X) == "addrURL" {
+						ok = false
+					}
+				}
+			case *ast.IncDecStmt:
+				if strings.HasPrefix(ex.str(n.X), "addrURL") {
+					ok = false
+				}
+			case *ast.UnaryExpr:
+				if n.Op == token.AND && strings.HasPrefix(ex.str(n.X), "addrURL") {
+					ok = false
+				}
+			case *ast.CallExpr:
+				f := ex.str(n.Fun)
+				if strings.HasPrefix(f, "addrURL.") && f != "addrURL.String" {
+					ok = false
+				}
+				for _, a := range n.Args {
+					if ex.str(a) == "addrURL" || ex.str(a) == "*addrURL" {
+						ok = false
+					}
+				}
+				if f == "doh.NewUpstream" {
+					nDoh++
+					dohPos = n.Pos()
+					if len(n.Args) != 3 || ex.str(n.Args[0]) != "addrURL.String()" {
+						ok = false
+					}
+				}
+			}
+			return true
+		})
+		// the recognised bracket restoration: a direct statement of the https case, before the endpoint is rendered
+		restores := false
+		if cc := ex.caseClause(newUpstream.Body, "addrURL.Scheme", "https"); cc != nil {
+			for _, st := range cc.Body {
+				is, isIf := st.(*ast.IfStmt)
+				if !isIf || is.Init == nil || is.Else != nil || len(is.Body.List) != 1 {
+					continue
+				}
+				if ex.str(is.Init) == "a, err := netip.ParseAddr(addrURL.Host)" && ex.str(is.Cond) == "err == nil && a.Is6()" &&
+					ex.str(is.Body.List[0]) == restoreStmt && nDoh == 1 && is.End() < dohPos {
+					restores = true
+				}
+			}
+		}
+		if hostWrites > 1 || (hostWrites == 1 && !restores) {
+			ok = false // a write to addrURL.Host that is not the recognised statement at the recognised place
+		}
+		ex.setBool("c18DohEndpointIsAddrUrl", ok && nDoh == 1, true, noteEP)
+		ex.setBool("c18DohRestoresV6Brackets", ok && nDoh == 1 && restores && hostWrites == 1, true, noteBR)
+	} else {
+		ex.setBool("c18DohEndpointIsAddrUrl", false, false, noteEP)
+		ex.setBool("c18DohRestoresV6Brackets", false, false, noteBR)
+	}
+
+	const drel = "pkg/upstream/doh/upstream.go"
+	const noteReq = "doh.Upstream: NewUpstream parses endPoint with http.NewRequest and keeps req.URL as template; exchange copies the template into the request and writes only RawQuery; no Host field is written anywhere in the file"
+	nu, exch, df := ex.fn(drel, "", "NewUpstream"), ex.fn(drel, "Upstream", "exchange"), ex.file(drel)
+	if nu != nil && exch != nil && df != nil {
+		ns, es := stmtStrings(ex, nu.Body), stmtStrings(ex, exch.Body)
+		tmpl := 0
+		ast.Inspect(nu.Body, func(x ast.Node) bool {
+			if kv, isKV := x.(*ast.KeyValueExpr); isKV && ex.str(kv.Key) == "urlTemplate" && ex.str(kv.Value) == "req.URL" {
+				tmpl++
+			}
+			return true
+		})
+		urlWrites := 0
+		ast.Inspect(exch.Body, func(x ast.Node) bool {
+			if as, isAs := x.(*ast.AssignStmt); isAs {
+				for _, l := range as.Lhs {
+					if s := ex.str(l); s == "req.URL" || strings.HasPrefix(s, "req.URL.") || s == "*req.URL" || s == "req.Host" {
+						urlWrites++
+					}
+				}
+			}
+			return true
+		})
+		ok := contains(ns, "req, err := http.NewRequest(http.MethodGet, endPoint, nil)") && c18Assigns(ex, nu.Body, "endPoint") == 0 &&
+			c18Assigns(ex, nu.Body, "req") == 1 && tmpl == 1 &&
+			contains(es, "req := u.reqTemplate.WithContext(ctx)") && contains(es, "req.URL = new(urlpkg.URL)") &&
+			contains(es, "*req.URL = *u.urlTemplate") && contains(es, "req.URL.RawQuery = dnsQuery") && urlWrites == 3 &&
+			contains(es, "resp, err := u.rt.RoundTrip(req)") && c18Assigns(ex, exch.Body, "req") == 1 &&
+			c18FieldWrites(ex, df, "Host") == 0 && c18FieldWrites(ex, df, "urlTemplate") == 0 && c18FieldWrites(ex, df, "reqTemplate") == 0
+		ex.setBool("c18DohRequestKeepsEndpointHost", ok, true, noteReq)
+	} else {
+		ex.setBool("c18DohRequestKeepsEndpointHost", false, false, noteReq)
+	}
 }
 
 // c18Assigns counts, inside node, the assignments (= and :=, also in if/for
